@@ -94,6 +94,12 @@ pub type DecisionCheck = Arc<dyn Fn(&Arc<feoxdb::FeoxStore>) -> Option<String> +
 
 /// Execute `p` once under the schedule prefix (thread ids); defaults afterwards.
 pub fn execute(p: &Program, prefix: &[usize], horizon: usize, on_decision: Option<DecisionCheck>) -> Exec {
+    execute_stall(p, prefix, horizon, on_decision, Duration::from_secs(4))
+}
+
+/// `stall`: how long the execution may go without a scheduling decision before it is
+/// given up as stuck.
+pub fn execute_stall(p: &Program, prefix: &[usize], horizon: usize, on_decision: Option<DecisionCheck>, stall: Duration) -> Exec {
     let mut ex = Exec {
         outcome: Outcome::Completed,
         trace: Vec::new(),
@@ -150,8 +156,8 @@ pub fn execute(p: &Program, prefix: &[usize], horizon: usize, on_decision: Optio
     let n_bg = if p.cfg.persistent { p.cfg.workers + 1 } else { 0 };
     let t0 = std::time::Instant::now();
     while sess.adopted.load(Ordering::SeqCst) < n_bg {
-        if t0.elapsed() > Duration::from_secs(5) {
-            ex.machinery = Some("background threads were not adopted within 5 s".into());
+        if t0.elapsed() > Duration::from_secs(20) {
+            ex.machinery = Some("env: background threads were not adopted within 20 s".into());
             return ex;
         }
         std::thread::sleep(Duration::from_micros(50));
@@ -225,19 +231,19 @@ pub fn execute(p: &Program, prefix: &[usize], horizon: usize, on_decision: Optio
             drop(store2);
             Session::uninstall();
         });
-        if rx.recv_timeout(Duration::from_secs(5)).is_err() {
-            ex.machinery = Some("application thread did not register".into());
+        if rx.recv_timeout(Duration::from_secs(20)).is_err() {
+            ex.machinery = Some("env: application thread did not register within 20 s".into());
             return ex;
         }
         handles.push(h);
     }
     drop(store);
-    if let Err(e) = sched.begin(n_bg + p.threads.len(), Duration::from_secs(5)) {
-        ex.machinery = Some(e);
+    if let Err(e) = sched.begin(n_bg + p.threads.len(), Duration::from_secs(20)) {
+        ex.machinery = Some(format!("env: {e}"));
         sched.stop();
         return ex;
     }
-    ex.outcome = sched.wait_done(Duration::from_secs(4));
+    ex.outcome = sched.wait_done(stall);
     // the scheduler is now in free mode: threads run to completion on their own
     let t1 = std::time::Instant::now();
     for h in handles {
@@ -511,7 +517,23 @@ pub fn explore_program(
                 stop.store(true, Ordering::Relaxed);
                 return;
             }
-            let ex = execute(p, &prefix, horizon, on_decision.clone());
+            let mut ex = execute(p, &prefix, horizon, on_decision.clone());
+            // a start-up timeout is the machine's doing (load), not the store's: try again
+            for _ in 0..3 {
+                if !ex.machinery.as_deref().is_some_and(|m| m.starts_with("env:")) {
+                    break;
+                }
+                std::thread::sleep(Duration::from_millis(300));
+                ex = execute(p, &prefix, horizon, on_decision.clone());
+            }
+            // silence for a few seconds can be the machine's doing as well: the same schedule
+            // once more with a long window decides
+            if matches!(ex.outcome, Outcome::Stuck(_)) && ex.machinery.is_none() {
+                let again = execute_stall(p, &ex.choices(), horizon, on_decision.clone(), Duration::from_secs(30));
+                if again.machinery.is_none() && !matches!(again.outcome, Outcome::Diverged(_)) {
+                    ex = again;
+                }
+            }
             executions.fetch_add(1, Ordering::Relaxed);
             decisions.fetch_add(ex.trace.len() as u64, Ordering::Relaxed);
             max_trace.fetch_max(ex.trace.len() as u64, Ordering::Relaxed);
@@ -559,7 +581,7 @@ pub fn explore_program(
             if !msgs.is_empty() {
                 let schedule = ex.choices();
                 // replay the complete schedule before reporting
-                let again = execute(p, &schedule, horizon, on_decision.clone());
+                let again = execute_stall(p, &schedule, horizon, on_decision.clone(), Duration::from_secs(if matches!(ex.outcome, Outcome::Stuck(_)) { 30 } else { 4 }));
                 let same_trace = again.choices() == schedule
                     && again.trace.iter().map(|d| &d.at).collect::<Vec<_>>() == ex.trace.iter().map(|d| &d.at).collect::<Vec<_>>();
                 let still = match &again.outcome {
